@@ -12,6 +12,7 @@ Implementation oracle (independent of the model): hashlib.md5 over the documente
   MD5( first 32 bytes of the zero-padded password  xor  8 x big-endian 32-bit challenge ),
 raw login = the same with challenge+1 (client -> server) and challenge-1 (server -> client),
 both modulo 2^32."""
+import re
 import os, hashlib
 import vlib
 import mainlib
@@ -257,7 +258,14 @@ def gen_cases(seed, tier):
 
     def sv(pw, s, uid, login, kind=None):
         stats['glue_server_version_login'] += 1
-        line = 'SV %s %d %d %s %s' % (hexs(pw), s % M32, uid, kind or rng.choice('NT'), hexs(login))
+        kd = kind or rng.choice('NT')
+        if rng.randrange(3) == 0:
+            # lower case: a second version request from the same address (a relay re-sending it, or another client behind the same
+            # relay) arrives between the version reply and the login; the challenge handed out first stays the one the login is
+            # checked against
+            kd = kd.lower()
+            stats['glue_server_second_version_before_login'] = stats.get('glue_server_second_version_before_login', 0) + 1
+        line = 'SV %s %d %d %s %s' % (hexs(pw), s % M32, uid, kd, hexs(login))
         if rng.randrange(3):
             # then the raw login of the same session: challenge+1 up (sometimes a wrong one), challenge-1 expected back
             k = rng.randrange(6)
@@ -658,7 +666,9 @@ def check(rep):
     if ctx.model and impl is not None:
         import time
         t0 = time.time()
-        rc, mod, err = run_sharded(ctx.model, cases, ctx.work, 'model')
+        # the model has no second client: a lower-case SV kind (second version request in between) is predicted by the plain case
+        mcases = [re.sub(r'^(SV \S+ \S+ \S+) ([nt]) ', lambda m: '%s %s ' % (m.group(1), m.group(2).upper()), c) for c in cases]
+        rc, mod, err = run_sharded(ctx.model, mcases, ctx.work, 'model')
         rep.cov['model_wall_s'] = round(time.time() - t0, 2)
         if rc != 0:
             ctx.broken.append(('model-crash', 'extracted model exited with %d: %s' % (rc, err[-300:])))
